@@ -55,10 +55,26 @@ def one(rng, big=False):
     return "writers " + " ".join(fmt_arg(x) for x in [[B, 1, vect], ws, order, wire] + specs), tags
 
 
+def big_greedy_case(rng, n, ws):
+    """a record whose body (payload + padding) is 65536 bytes or close to it, on a vectored transport that accepts everything it is
+    offered in one call (or the 8 header bytes first, then everything): counts that do not fit 16 bits"""
+    rid = rng.choice([1, 300])
+    wire = flat(minimal_preamble(rid, 1, flags=0))
+    specs = [[rng.choice([STDOUT, STDERR]), 999] + [rng.randrange(256) for _ in range(n)]]
+    if rng.random() < 0.5:
+        specs.append([STDERR, 999] + [rng.randrange(256) for _ in range(rng.choice([0, 3, 9]))])
+    order = [rng.randrange(len(specs)) for _ in range(rng.randrange(0, 6))]
+    return ("writers " + " ".join(fmt_arg(x) for x in [[rng.choice([64, 8192]), 1, 1], ws, order, wire] + specs),
+            ["writers", "w%d" % len(specs), "vectored", "big", "big-greedy"] + (["scripted"] if ws else []))
+
+
 def gen_cases(rng, tier):
     quick = tier == "quick"
     for _ in range(1200 if quick else 60000):
         yield one(rng)
+    for n in ([65528, 65529, 65535, 65536, 131070] if quick else [65527, 65528, 65529, 65530, 65534, 65535, 65536, 65537, 70000, 131070, 131071]):
+        for ws in ([], [8, 10 ** 6, 10 ** 6, 10 ** 6], [3, 5, 10 ** 6, 10 ** 6, 10 ** 6], [10 ** 6] * 6):
+            yield big_greedy_case(rng, n, ws)
     for _ in range(4 if quick else 100):
         c, t = one(rng, big=True)
         yield c, t + ["big"]
